@@ -201,6 +201,9 @@ class QuicConnectionProtocol(asyncio.DatagramProtocol):
         protocol = asyncio.streams.StreamReaderProtocol(reader)
         writer = asyncio.StreamWriter(adapter, protocol, reader, self._loop)
         self._stream_readers[stream_id] = reader
+        if self._closed.is_set():
+            # the connection has already terminated, nothing will ever arrive
+            reader.feed_eof()
         return reader, writer
 
     def _handle_timer(self) -> None:
